@@ -2,7 +2,7 @@
    Statements only; the model is Prof/ProfDefs.v, the proofs are in
    Prof/ProfWriter.v (buffer packing), ProfEvents.v (event records, chain walk),
    ProfTables.v (dictionary and thread table), ProfFile.v (several chains in one
-   file), ProfWhole.v (whole profile).
+   file), ProfWhole.v (whole profile), ProfDump.v (termination of the dump).
 
    Level: partial.  Modelled byte for byte: events buffers, dictionary and
    thread-table buffers (x86-64 little-endian layout of
@@ -13,7 +13,7 @@
    helper thread and the allocation of file offsets (any injective
    allocation [alloc chain index] is covered). *)
 From PV Require Import Base.Tac Prof.ProfDefs Prof.ProfBytes Prof.ProfWriter Prof.ProfEvents Prof.ProfFile
-  Prof.ProfTables Prof.ProfWhole.
+  Prof.ProfTables Prof.ProfDump Prof.ProfWhole.
 From Coq Require Import NArith.
 Local Open Scope N_scope.
 
@@ -22,7 +22,8 @@ Local Open Scope N_scope.
    (dict_ok, stream_ok) and every injective allocation of file offsets, the
    reader applied to the file of the writer returns the dictionary (as the
    reader presents it: key_view), the thread table (streams that logged
-   something) and, for each of them, exactly the logged events in order. *)
+   something, each with the infos that fit a thread buffer: kept_infos) and, for
+   each of them, exactly the logged events in order. *)
 Theorem C42_read_back : forall avail alloc d ss fuel,
   (forall c j c' j', alloc c j = alloc c' j' -> c = c' /\ j = j') ->
   (forall c j, alloc c j < NOOFF) ->
@@ -32,7 +33,7 @@ Theorem C42_read_back : forall avail alloc d ss fuel,
   (length (encode avail alloc d ss) <= fuel)%nat ->
   decode fuel (fun o => lookup o (encode avail alloc d ss))
          (alloc 0%nat 0%nat) (length d) (alloc 1%nat 0%nat) (length (stored ss))
-  = Some (profile_view alloc d ss).
+  = Some (profile_view avail alloc d ss).
 Proof. exact encode_read_back. Qed.
 Print Assumptions C42_read_back.
 
@@ -94,35 +95,100 @@ Theorem C42_key_fits_uint16 : forall k b, k < 32768 -> key_of k b mod 65536 = ke
 Proof. exact key_of_uint16. Qed.
 Print Assumptions C42_key_fits_uint16.
 
-(* the record logged by a call whose info area has the declared length and
-   which does not pass HAS_INFO without an info satisfies the hypothesis ev_ok
-   of the theorems above *)
+(* the record logged by a call whose info area has the declared length
+   satisfies the hypothesis ev_ok of the theorems above, whatever flags the
+   caller passes (since the repair 27f62af the stored HAS_INFO bit is the one
+   the space was reserved with) *)
 Theorem C42_logged_event_ok : forall il c ts, call_ok il c -> ev_ok il (log_event c ts).
 Proof. exact log_event_ok. Qed.
 Print Assumptions C42_logged_event_ok.
 
-(* Finding: the precondition on the flag is needed.  A call that passes
-   PARSEC_PROFILING_EVENT_HAS_INFO with a NULL info pointer is accepted by the
-   writer, which reserves 24 bytes (EVENT_LENGTH looks at the pointer) but
-   stores the flag; the reader (DBP_EVENT_LENGTH looks at the flag) then skips
-   info_length more bytes: the following events are misread. *)
+(* Before the repair (finding hasinfo-flag-null-info): a call that passed
+   PARSEC_PROFILING_EVENT_HAS_INFO with a NULL info pointer made the writer
+   reserve 24 bytes (EVENT_LENGTH looks at the pointer) but store the flag; the
+   reader (DBP_EVENT_LENGTH looks at the flag) then skipped info_length more
+   bytes and misread the following events.  The same calls are read back with
+   the repaired [log_event]. *)
 Definition bad_alloc (j : nat) : N := 4096 * (N.of_nat j + 2).
 Definition bad_calls : list call :=
   [ mk_call 2 100 7 None 1;      (* HAS_INFO, no info *)
     mk_call 3 101 7 None 0;
     mk_call 2 102 7 (Some [1;2;3;4;5;6;7;8]) 0 ].
-Definition bad_events : list event := map (fun c => log_event c 5) bad_calls.
-Theorem C42_has_info_flag_without_info_refuted :
-  exists il avail al evs,
-    Forall (fun e => ev_len il e <= avail) evs /\ evs <> [] /\
-    dec_chain 10 (fun o => lookup o (enc_events il avail al evs)) il (al 0%nat) <> evs.
+Theorem C42_has_info_flag_without_info_prefix_refuted :
+  let il := [0; 8] in
+  let before := map (fun c => log_event_prefix c 5) bad_calls in
+  let after := map (fun c => log_event c 5) bad_calls in
+  Forall (call_ok il) bad_calls /\
+  dec_chain 10 (fun o => lookup o (enc_events il 100 bad_alloc before)) il (bad_alloc 0%nat) <> before /\
+  dec_chain 10 (fun o => lookup o (enc_events il 100 bad_alloc after)) il (bad_alloc 0%nat) = after.
 Proof.
-  exists [0; 8], 100, bad_alloc, bad_events. repeat apply conj.
-  - repeat constructor; vm_compute; discriminate.
-  - discriminate.
+  cbv zeta. repeat apply conj.
+  - repeat constructor.
   - vm_compute. discriminate.
+  - vm_compute. reflexivity.
 Qed.
-Print Assumptions C42_has_info_flag_without_info_refuted.
+Print Assumptions C42_has_info_flag_without_info_prefix_refuted.
+
+(* Per-stream info blocks (dump_thread after the repair 54d29e4).  An info that
+   does not fit the thread buffer is omitted; the reader then shows the stream
+   with its events and with the infos that fit, in order (profile_view /
+   kept_infos in C42_read_back).  Nothing is omitted from an entry that fits: *)
+Theorem C42_infos_kept_when_entry_fits : forall avail infos,
+  156 + infos_sz infos < avail -> kept_infos avail infos = infos /\ omits avail infos = false.
+Proof. exact kept_infos_all_when_fit. Qed.
+Print Assumptions C42_infos_kept_when_entry_fits.
+(* an info that cannot fit any buffer is never stored, the others keep their order
+   (kept_infos is a subsequence) *)
+Theorem C42_oversized_info_omitted : forall avail infos kv,
+  avail <= 156 + info_sz kv -> ~ In kv (kept_infos avail infos).
+Proof. exact oversized_info_omitted. Qed.
+Print Assumptions C42_oversized_info_omitted.
+(* the infos written do not depend on where the entry lands in the buffer, and
+   the entry has the length thread_size() announced (the switch test of the
+   thread table uses it) *)
+Theorem C42_kept_infos_position_independent : forall avail infos p,
+  p + thread_size_from avail 156 infos < avail ->
+  kept_from avail (p + 156) infos = kept_infos avail infos /\
+  156 + infos_sz (kept_infos avail infos) = thread_size_from avail 156 infos.
+Proof. exact kept_infos_position_independent. Qed.
+Print Assumptions C42_kept_infos_position_independent.
+(* since the repair 73717d1 thread_size() uses the test of the copy loop: an
+   entry always ends before the end of a buffer (no hypothesis on the infos is
+   needed in stream_ok) ... *)
+Theorem C42_thread_entry_ends_before_buffer_end : forall avail infos,
+  156 < avail -> thread_size_from avail 156 infos < avail.
+Proof. exact thread_entry_ends_before_buffer_end. Qed.
+Print Assumptions C42_thread_entry_ends_before_buffer_end.
+(* ... before it (finding thread-entry-exactly-full) an info could make the entry
+   exactly as large as the buffer: dump_thread then moved the entry to a new
+   buffer even from position 0, leaving a buffer that announces no thread, out
+   of which the reader parsed one *)
+Theorem C42_thread_entry_exactly_full_prefix_refuted :
+  exists avail infos, 156 < avail /\ thread_size_prefix avail 156 infos = avail /\
+                      thread_size_from avail 156 infos < avail.
+Proof.
+  exists 300, [([98; 105; 103], repeat 118 130%nat)].
+  repeat apply conj; vm_compute; reflexivity.
+Qed.
+Print Assumptions C42_thread_entry_exactly_full_prefix_refuted.
+(* Before the repair (finding stream-info-too-large) the copy loop did not
+   advance past an info that did not fit: the dump never returned.  Where the
+   old loop returned, the repaired loop copies exactly the same infos. *)
+Theorem C42_repaired_loop_agrees_with_prefix : forall avail infos pos p,
+  copy_infos_prefix avail pos infos = Some p ->
+  kept_from avail pos infos = infos /\ p = pos + infos_sz infos.
+Proof. exact repaired_loop_agrees_with_prefix. Qed.
+Print Assumptions C42_repaired_loop_agrees_with_prefix.
+Theorem C42_dump_thread_info_loop_prefix_refuted :
+  exists avail ss, Forall (fun s => evs_ok [0] avail (s_events s)) ss /\
+    dump_terminates_prefix avail ss = false /\
+    map (fun s => kept_infos avail (s_infos s)) ss = [[]].       (* repaired: returns, the info is omitted *)
+Proof.
+  exists 300, [mk_stream [115; 48] [([98; 105; 103], repeat 118 200%nat)] [log_event (mk_call 0 1 1 None 0) 1]].
+  repeat apply conj; [|vm_compute; reflexivity|vm_compute; reflexivity].
+  repeat constructor; vm_compute; try discriminate; auto.
+Qed.
+Print Assumptions C42_dump_thread_info_loop_prefix_refuted.
 
 (* non-vacuity: a profile with two dictionary entries and three streams (one
    silent) in buffers of 25 + 300 bytes: the dictionary, the thread table and
@@ -145,7 +211,7 @@ Example C42_example :
   dict_ok 300 ex_dict /\ Forall (stream_ok (map k_ilen ex_dict) 300) ex_streams /\
   length (encode 300 ex_alloc ex_dict ex_streams) = 8%nat /\
   decode 8 (fun o => lookup o (encode 300 ex_alloc ex_dict ex_streams))
-         (ex_alloc 0 0) 2 (ex_alloc 1 0) 2 = Some (profile_view ex_alloc ex_dict ex_streams).
+         (ex_alloc 0 0) 2 (ex_alloc 1 0) 2 = Some (profile_view 300 ex_alloc ex_dict ex_streams).
 Proof.
   repeat apply conj.
   - unfold dict_ok, key_ok, nonul. repeat constructor; vm_compute; try discriminate; auto.
